@@ -16,6 +16,8 @@ func c18Witnesses() []*sim.Case {
 			para("Hello {{name}}"), sim.Op{K: "p.pbreak", I: []int{-1}}),
 		mk("loop-table-static-rows-not-substituted", `{"v":{"title":"T"},"l":{"items":[{"f1":"a","qty":1,"f2":"b"}]}}`,
 			sim.Op{K: "t.new", I: []int{3, 3, 6000, 0, 1}, S: []sim.Str{"Item {{title}}", "Qty", "Note", "{{#each items}}{{f1}}", "{{qty}} pcs", "{{f2}}{{/each}}", "Total", "", "end"}}),
+		mk("render-drops-package-relationships (fixed): a template opened from a package that declares docProps parts", `{"v":{"name":"N"}}`,
+			sim.Op{K: "foreign", I: []int{15373756, 62757, 2}}, para("Hello {{name}}")),
 		mk("header-value-control-character", `{"v":{"title":"x\u0001y"}}`, para("body"), sim.Op{K: "hdr", S: []sim.Str{"default", "H {{title}}"}}),
 	}
 }
